@@ -239,6 +239,8 @@ def sum_dicts(ds):
                 out[k] = out.get(k, 0) + v
             elif isinstance(v, dict):
                 out[k] = sum_dicts([out.get(k, {}), v])
+            elif isinstance(v, list):
+                out[k] = list(out.get(k, [])) + v
             else:
                 prev = out.get(k)
                 if prev is None:
